@@ -93,10 +93,10 @@ func ops(s ...string) RScenario {
 
 func specialReady() []RScenario {
 	return []RScenario{
-		ops("get", "ready", "q"),               // Run never called: the calls legitimately wait
-		ops("run", "get", "ready", "q"),        // issuer has not answered yet
-		ops("get", "run", "ready", "q", "ok"),  // the schedule that deadlocked before the repair
-		ops("getp", "run", "q", "rel0", "ok"),  //   … with the reader held at the hook (old code) / not reaching it (new code)
+		ops("get", "ready", "q"),              // Run never called: the calls legitimately wait
+		ops("run", "get", "ready", "q"),       // issuer has not answered yet
+		ops("get", "run", "ready", "q", "ok"), // the schedule that deadlocked before the repair
+		ops("getp", "run", "q", "rel0", "ok"), //   … with the reader held at the hook (old code) / not reaching it (new code)
 		ops("getp", "get", "run", "ready", "fail"),
 		ops("readyc", "cancel0", "run", "ok"),
 		ops("readyc", "run", "cancel0", "ok"),
@@ -432,9 +432,9 @@ func tops(s ...string) TScenario {
 
 func specialTA() []TScenario {
 	return []TScenario{
-		tops("bundle", "anchors", "q"),                         // Run never called: the calls legitimately wait
-		tops("bundle", "anchorsc", "cancel1", "q"),             // … only the ctx ends one of them
-		tops("run", "bundle", "anchors", "q", "stop"),          // file never appears: Run ends with an error, closeCh releases the readers
+		tops("bundle", "anchors", "q"),                // Run never called: the calls legitimately wait
+		tops("bundle", "anchorsc", "cancel1", "q"),    // … only the ctx ends one of them
+		tops("run", "bundle", "anchors", "q", "stop"), // file never appears: Run ends with an error, closeCh releases the readers
 		tops("run", "bundle", "q", "file1", "q", "file2", "q", "file3", "bundle", "q"),
 		tops("file1", "run", "watch", "watch", "bundle", "q", "file2", "q", "anchors", "file0", "q", "bundle", "anchors"),
 		tops("watch", "bundle", "run", "file0", "q", "anchors"), // garbage as first content: Run returns an error
